@@ -62,6 +62,25 @@ def mergeTries (step : Bool) (blockSize : Nat) (ts : List Node) : Option (List N
   | _ =>
     (buildAll (writeBlocks blockSize (pending.flatMap (fun t => prefixIter step t [])))).map (fun r => big ++ r)
 
+/-! ### one merger instance, many `Merge` calls (a kv compaction job) -/
+
+/-- one `Merge(bucketID, buckets)` call: the tries unmarshalled from the blocks of that key -/
+structure MergeCall where
+  bucketID : Nat
+  tries : List Node
+
+/-- `indexKVMerger.Merge`: a NEW `model.NewTrieBucket()` is filled with the blocks of this call,
+`kvWriter.Prepare(bucketID)` resets the stream writer, `trieBucket.Write` writes the merged tries.
+The merger object itself (`flusher`, `kvWriter`) carries nothing from call to call, so the log of
+what was written only grows by this call's result. -/
+def mergerStep (step : Bool) (blockSize : Nat) (written : List (Nat × Option (List Node))) (c : MergeCall) :
+    List (Nat × Option (List Node)) :=
+  written ++ [(c.bucketID, mergeTries step blockSize c.tries)]
+
+/-- what one merger instance writes over a sequence of calls -/
+def mergerRun (step : Bool) (blockSize : Nat) (calls : List MergeCall) : List (Nat × Option (List Node)) :=
+  calls.foldl (mergerStep step blockSize) []
+
 /-! ### like dispatch (index/kv_store.go `indexKVStore.FindValuesByLike`) -/
 
 /-- `'*'` -/
